@@ -2,6 +2,7 @@
 import gens, common
 from common import Failure
 from props._base import *  # noqa
+TRUSTED_BASE = TRUSTED_BASE + ['tools/py2lean.py (syntax-directed translation of the Python source into A5/Gen/Src.lean, regenerated every run) and the operator semantics of A5/Model/PySem.lean — both exercised every run by executing the translated source (lean/SrcMain.lean) against the implementation on the same ops, negative ints included', 'kernel-checked bridge theorems (A5/Proofs/SrcBridge*.lean, A5/Props/SrcTie/*.lean): translated source = hand-written model for EVERY non-negative id / every list of ids / every int argument']
 from refids import ref_decode, union_spans, ref_res, MAXV
 
 LEAN_MODULES = ['A5.Props.C08', 'A5.Props.SrcTie.Compact']
@@ -10,12 +11,14 @@ LEVEL = 'proof'
 EXPLANATION = ('Lean theorem for EVERY finite list of valid ids (mixed resolutions -1..29, duplicates, any order, ancestors next to descendants): compact is total, returns valid ids, and a cell of any '
                'level R >= all input resolutions is covered by the output iff it is covered by the input; corollary in observable form set(uncompact(compact(X),R)) = set(uncompact(X,R)). '
                'Proof: each merge is sound (first child + stride run = all children of the parent, per aperture 12/5/4), pass-level induction, loop within fuel. '
-               'Tie: differential correspondence of compact (output order included), is_first_child, get_stride, cell_to_parent.')
+               'Tie: differential correspondence of compact (output order included), is_first_child, get_stride, cell_to_parent.'
+               " SOURCE-LEVEL TIE (every run): the functions of this property's cone are translated from /repo's current source by tools/py2lean.py into Lean definitions (A5/Gen/Src.lean); bridge theorems prove, for every input (no sampling), that the translated definitions compute exactly what the hand-written model computes, and the headline theorems are restated about the translated source (`*_of_source`). A source change changes the generated definitions and the kernel re-checks the bridges; a construct outside the translated subset (decorators, global state, …) is reported as a broken tie.")
 RULE = ('ops: fixed groups at every aperture, random antichains and non-antichains of bounded sub-hierarchies spanning world/12/5/4, permutations of small cases, cascading deep groups down to resolution 29, '
         'large random multisets, whole levels; search: coverage (union of finest-level index intervals, independent reference) of output vs input')
-ASSUMPTIONS = ['sampled agreement of A5/Model/Compact.lean with a5/core/compact.py extends to all inputs', 'inputs are valid ids (the property\'s own hypothesis)']
-LEVEL_TEXT = 'machine-checked proof (Lean 4 kernel) for every finite list of valid ids; model tied to the source by differential correspondence (output compared as emitted)'
-TECHNIQUE = 'Lean 4 proof (merge-step soundness per aperture + induction over pass and loop) + differential correspondence'
+ASSUMPTIONS = ['the translator tools/py2lean.py and A5/Model/PySem.lean (incl. sorted(set(.), key=.) for an injective key) represent CPython faithfully (validated every run by executing the translated source against the implementation)', 'inputs are valid ids (the property\'s own hypothesis)']
+LEVEL_TEXT = 'machine-checked proof (Lean 4 kernel) for every finite list of valid ids; model tied to the source by per-run translation + kernel-checked bridge theorems, and by differential correspondence (output compared as emitted)'
+TECHNIQUE = 'Lean 4 proof (merge-step soundness per aperture + induction over pass and loop) + differential correspondence + source translated to Lean each run (py2lean) with bridge theorems Src = Model for all inputs'
+LEVEL_NOTE = 'trusted: Lean kernel + standard axioms; gen_tables.py; py2lean.py + PySem.lean (translator and Python operator semantics, executed against the implementation every run); CPython int/list semantics as modelled there'
 DESIGN_REF = 'DESIGN.md §3 C08'
 
 def gen_ops(tier, rng):
